@@ -8,6 +8,7 @@ import (
 	"go/types"
 	"os"
 	"sort"
+	"strconv"
 	"strings"
 
 	"golang.org/x/tools/go/ssa"
@@ -121,17 +122,6 @@ func (e *Exec) builtin(st *State, fr *Frame, b *ssa.Builtin, cc *ssa.CallCommon,
 			c := comp{"", BV(8)}
 			st.setArrayOf(d.Elem, c, d.Arr, ArrayCopy(st.arrayOf(d.Elem, c, d.Arr), d.Off, s.Data, BVConst(0, 64), n))
 		}
-		// copy(obj.arr[:], src) where arr is an array stored by value inside an object: the slice is a view of a
-		// copy of the field (sliceEmbeddedArray), so the result is written back into the field
-		if sx, ok := cc.Args[0].(*ssa.Slice); ok {
-			if pv, ok := e.val(fr, sx.X).(*PtrV); ok && pv.Kind == PObj {
-				l := e.locOf(pv)
-				if at, ok := l.T.Underlying().(*types.Array); ok {
-					e.frameCheck(st, fr, l, pos)
-					st.StoreLoc(l, &ArrV{Data: st.arrayOf(d.Elem, comp{"", scalarSort(at.Elem())}, d.Arr), N: at.Len(), Elem: at.Elem()})
-				}
-			}
-		}
 		return one(st, n)
 	case "delete":
 		m := args[0].(*MapV)
@@ -232,13 +222,41 @@ func isModuleFn(fn *ssa.Function) bool {
 }
 
 func (e *Exec) callFunction(st *State, fr *Frame, fn *ssa.Function, args []Value, bind []Value, pos token.Pos) []Outcome {
-	name := fn.String()
-	// call-site assertions of the function under verification
 	if fr.top && e.topSpec != nil && e.specMode == 0 && e.topSpec.CountCalls[fn.Name()] {
-		// ghost call counter (contracts speak about it through ghost_calls("<callee>"))
+		// ghost call counter (contracts speak about it through ghost_calls("<callee>")); when the callee's first result
+		// is a pointer, the one returned by the latest call is kept too (ghost_last_<callee>())
 		k := "calls." + fn.Name()
 		e.ghSet(st, k, BV(64), IntConst(0), BVAdd(e.ghGet(st, k, BV(64), IntConst(0)), BVConst(1, 64)))
+		outs := e.callFunction1(st, fr, fn, args, bind, pos)
+		e.recordLastResult(outs, fn.Name())
+		return outs
 	}
+	return e.callFunction1(st, fr, fn, args, bind, pos)
+}
+
+// recordLastResult keeps the first result of a counted call in ghost state: a pointer (ghost_last_<callee>()) or a scalar
+// (ghost_lastv_<callee>())
+func (e *Exec) recordLastResult(outs []Outcome, callee string) {
+	for _, o := range outs {
+		if len(o.results) == 0 || o.st.dead {
+			continue
+		}
+		switch r := o.results[0].(type) {
+		case *PtrV:
+			if r.Kind == PObj && len(r.Path) == 0 {
+				e.ghSet(o.st, "calls.last."+callee, SInt, IntConst(0), r.Base)
+			}
+		case *Term:
+			if r.Sort.IsBV() {
+				e.ghSet(o.st, fmt.Sprintf("calls.lastv%d.%s", r.Sort.Width(), callee), r.Sort, IntConst(0), r)
+			}
+		}
+	}
+}
+
+func (e *Exec) callFunction1(st *State, fr *Frame, fn *ssa.Function, args []Value, bind []Value, pos token.Pos) []Outcome {
+	name := fn.String()
+	// call-site assertions of the function under verification
 	if fr.top && e.topSpec != nil && e.specMode == 0 && e.discovery == 0 {
 		if len(e.topSpec.AtCall[fn.Name()]) > 0 {
 			if e.atCallSeen == nil {
@@ -255,6 +273,11 @@ func (e *Exec) callFunction(st *State, fr *Frame, fn *ssa.Function, args []Value
 						}
 					}
 					return nil, false
+				}
+				if len(n) > 3 && strings.HasPrefix(n, "arg") { // arg<N>: the callee's N-th parameter (a method's receiver is arg0)
+					if i, err := strconv.Atoi(n[3:]); err == nil && i < len(args) {
+						return args[i], true
+					}
 				}
 				return e.topEnvLookup(st, fr, n, t)
 			}, true)
@@ -411,6 +434,17 @@ func (e *Exec) methodOf(t types.Type, m *types.Func) *ssa.Function {
 }
 
 func (e *Exec) invoke(st *State, fr *Frame, cc *ssa.CallCommon, recv *IfaceV, args []Value, pos token.Pos) []Outcome {
+	if fr.top && e.topSpec != nil && e.specMode == 0 && e.topSpec.CountCalls[cc.Method.Name()] {
+		k := "calls." + cc.Method.Name()
+		e.ghSet(st, k, BV(64), IntConst(0), BVAdd(e.ghGet(st, k, BV(64), IntConst(0)), BVConst(1, 64)))
+		outs := e.invoke1(st, fr, cc, recv, args, pos)
+		e.recordLastResult(outs, cc.Method.Name())
+		return outs
+	}
+	return e.invoke1(st, fr, cc, recv, args, pos)
+}
+
+func (e *Exec) invoke1(st *State, fr *Frame, cc *ssa.CallCommon, recv *IfaceV, args []Value, pos token.Pos) []Outcome {
 	e.oblige(st, fr, "safe.nil", pos, Not(Eq(recv.Tid, IntConst(0))))
 	if st.dead || recv.Tid.Op == "intconst" && recv.Tid.Val == 0 {
 		return nil
@@ -918,6 +952,20 @@ func pureOpaque(name string) model {
 	}
 }
 
+// pureOpaqueStr: a pure function returning an unspecified non-empty string of at most max bytes
+func pureOpaqueStr(name string, max uint64) model {
+	op := pureOpaque(name)
+	return func(e *Exec, st *State, fr *Frame, fn *ssa.Function, args []Value, pos token.Pos) []Outcome {
+		outs := op(e, st, fr, fn, args, pos)
+		for _, o := range outs {
+			s := o.results[0].(*StrV)
+			o.st.Assume(And(BVUle(BVConst(1, 64), s.Len), BVUle(s.Len, BVConst(max, 64))))
+		}
+		e.note(fmt.Sprintf("trusted: %s returns between 1 and %d bytes", name, max))
+		return outs
+	}
+}
+
 // ifaceElems returns the (tid, ref) terms of the first n elements of a []interface{} value.
 func ifaceElems(st *State, s *SliceV, n int) []*Term {
 	var out []*Term
@@ -983,8 +1031,9 @@ func init() {
 		"fmt.Sprintf":              formatModel("fmt.Sprintf", 1),
 		"fmt.Sprint":               formatModel("fmt.Sprint", 0),
 		"fmt.Sprintln":             pureOpaque("fmt.Sprintln"),
-		"strconv.Itoa":             pureOpaque("strconv.Itoa"),
-		"strconv.FormatInt":        pureOpaque("strconv.FormatInt"),
+		"strconv.Itoa":             pureOpaqueStr("strconv.Itoa", 20), // sign and at most 19 digits
+		"strconv.Quote":            pureOpaque("strconv.Quote"),
+		"strconv.FormatInt":        pureOpaqueStr("strconv.FormatInt", 65), // sign and at most 64 digits (base 2)
 		"strings.Join":             pureOpaque("strings.Join"),
 		"unicode/utf8.ValidString": pureOpaque("utf8.ValidString"),
 		"os.Getpid": func(e *Exec, st *State, fr *Frame, fn *ssa.Function, args []Value, pos token.Pos) []Outcome {
